@@ -59,6 +59,18 @@ CLAIMED = {
             'trusted: TLC, strace (kill on syscall entry), harness/fs_worker.py; process kill, not power loss; two keys; nine scenarios; '
             'HDF5/sqlalchemy backends absent',
             'TLA+ layer I with Kill model-checked by TLC + exhaustive kill-point enumeration on real processes (strace injection) + trace validation'),
+    'C14': ('fs', 'model_checking',
+            'C14.*: concurrent readers never fail, never see a key that was never stored or a value other than one stored for that key; '
+            'writers to distinct keys never lose each other\'s entries; for the single file every reader/opener sees a complete earlier '
+            'or later dictionary and no completed write is lost. Layer I (DirFS, FileFS: one action per file-system call, processes '
+            'interleaving call by call) is model-checked by TLC over all interleavings of every scenario against the C14 clauses of FsP, '
+            'idealised (must hold) and with the deviations that describe the code as it is; TLC generates the schedules with a bounded '
+            'number of context switches (those predicted to violate first); each is executed by real processes parked before each of '
+            'their file-system calls (audit hooks + open/exists wrappers in the worker launcher; SQL statements for sqlite) and released '
+            'in schedule order; TLC judges every run\'s results and final view (FsTrace).', '4 (C14)',
+            'trusted: TLC, harness/fs_worker.py stepping (audit events cover open/mkdir/rename/remove/rmdir/scandir), processes not threads; '
+            'two or three operations, two keys; sqlite at statement granularity; HDF5/sqlalchemy backends absent',
+            'TLA+ layer I interleavings model-checked by TLC + TLC-generated schedules replayed on real processes (stepping controller) + trace validation'),
     'C15': _cache('Clauses C15.*: exactly one of hit/load/miss is incremented according to the pre-state class; size/maxsize; clear semantics.', '4 (C15)'),
     'C16': _cache('Clauses C16.*: a raising call leaves every observable unchanged and re-raises the same object after one evaluation; '
                   'safe decorators fall back to plain evaluation for unkeyable arguments.', '4 (C16)'),
